@@ -251,7 +251,7 @@ Qed.
 Definition pex_ext : Parser.ext :=
   {| Parser.x_alpha := fun _ => false; Parser.x_alnum := fun _ => false; Parser.x_ws := fun _ => false;
      Parser.x_query := fun _ _ => Some (Parser.QOk 1 (Some 1)); Parser.x_merged := fun _ => Some true;
-     Parser.x_regex := fun _ => Some true |}.
+     Parser.x_regex := fun _ => Some true; Parser.x_print := [] |}.
 Definition pex_text : str := [40; 97; 41; 32; 64; 120; 32; 123; 10; 32; 32; 105; 102; 32; 115; 111; 109; 101; 32; 64; 120; 32; 123; 10; 32; 32; 32; 32; 102; 111; 114; 32; 121; 32; 105; 110; 32; 91; 49; 93; 32; 123; 10; 32; 32; 32; 32; 32; 32; 115; 99; 97; 110; 32; 34; 115; 34; 32; 123; 10; 32; 32; 32; 32; 32; 32; 32; 32; 34; 97; 34; 32; 123; 32; 112; 114; 105; 110; 116; 32; 121; 32; 125; 10; 32; 32; 32; 32; 32; 32; 125; 10; 32; 32; 32; 32; 125; 10; 32; 32; 125; 32; 101; 108; 105; 102; 32; 110; 111; 110; 101; 32; 64; 120; 32; 123; 10; 32; 32; 32; 32; 112; 114; 105; 110; 116; 32; 34; 101; 34; 10; 32; 32; 125; 32; 101; 108; 115; 101; 32; 123; 10; 32; 32; 32; 32; 110; 111; 100; 101; 32; 110; 10; 32; 32; 125; 10; 32; 32; 112; 114; 105; 110; 116; 32; 49; 10; 125; 10; 40; 98; 41; 32; 64; 95; 122; 32; 123; 10; 32; 32; 115; 99; 97; 110; 32; 34; 116; 34; 32; 123; 32; 34; 98; 34; 32; 123; 32; 105; 102; 32; 35; 116; 114; 117; 101; 32; 123; 32; 108; 101; 116; 32; 119; 32; 61; 32; 49; 32; 125; 32; 125; 32; 125; 10; 125; 10].
 Example parsed_locs_unique_nonvacuous :
   exists fl, Parser.parse pex_ext (Parser.fuel_of pex_text) pex_text = Parser.POk fl [[97]; [98]] /\
